@@ -286,7 +286,7 @@ CLAIMED = {
               "it is exactly the maximum once any value exceeds the initial 0.0, and later planes with an equal value do "
               "not replace it (first occurrence).  The fold model reproduces Assembly._peak bit-exactly on the histories "
               "of real sweeps recorded inside Assembly.calculate, and the summary tables are parsed and compared with the "
-              "state."),
+              "state.  Rows of the peak pin tables (Model.Peaks.pinRowLabels): a row labelled j exists iff assembly j - 1 tracks pin peaks (c15_pin_rows_labels; the running-number labelling provably differs: c15_pin_rows_running_counter), tied to the parsed real tables (driver op pinrows); every row is compared with the stored profile of the assembly it is labelled with."),
         note=COMMON_NOTE + ("T3 hand model + trace validation (fields recorded right after Assembly.calculate, incl. "
                             "multi-region assemblies whose duct count changes, pin models) and an independent Python "
                             "evaluation of the property on the same histories.  Table layout is parsed, not modelled."),
